@@ -4,6 +4,16 @@ import re
 from . import core2gen, core3gen, metagen
 
 
+def global_ty(tv):
+    """the type descriptor of `<ty>=<const>` (the constant descriptor has no `=` outside parentheses at depth 0 before its own start)"""
+    depth = 0
+    for k, ch in enumerate(tv):
+        depth += ch == "("; depth -= ch == ")"
+        if ch == "=" and depth == 0:
+            return tv[:k]
+    return tv
+
+
 def gen_whole(rng, max_funcs=3):
     while True:
         ts, gs = core2gen.gen_core2(rng)
@@ -13,12 +23,30 @@ def gen_whole(rng, max_funcs=3):
             ents = {bytes.fromhex(e.split(":")[0]).decode("latin-1"): e for e in ts.split("/")}
             ts = "/".join(ents[n] for n in modgen.natsorted(list(ents)))
         gnames = set(e.split(":")[0] for e in gs.split("/")) if gs != "-" else set()
-        funcs, fnames = [], set()
-        for _ in range(rng.randint(0, max_funcs)):
-            f = core3gen.gen_func(rng)
-            if f[1] in gnames or f[1] in fnames:
+        # a few global variables of the types function bodies use, so that `@name` operands occur
+        extra = []
+        for _ in range(rng.randint(0, 3)):
+            n = core3gen.safe_name(rng).hex()
+            if n in gnames:
                 continue
-            fnames.add(f[1]); funcs.append(f)
+            gnames.add(n)
+            t = rng.choice(["i32", "i8", "i64", "p0(i8)", "V4(i32)", "s(i32,i8)", "a4(i8)"])
+            extra.append((n, t))
+        if extra:
+            gs = "/".join(([gs] if gs != "-" else []) + ["%s:%s:%s=%s" % (n, rng.choice(["g", "c"]), t, "z" if not t.startswith("i") else "i%d" % rng.randint(0, 100)) for n, t in extra])
+        sigs, fnames = [], set()
+        for _ in range(rng.randint(0, max_funcs)):
+            sg = core3gen.gen_sig(rng)
+            if sg[0].hex() in gnames or sg[0].hex() in fnames:
+                continue
+            fnames.add(sg[0].hex()); sigs.append(sg)
+        genv = [(n, "p0(%s)" % t) for n, t in extra] + [(sg[0].hex(), core3gen.sig_ref_ty(sg)) for sg in sigs]
+        if gs != "-":
+            for e in gs.split("/"):
+                f = e.split(":", 2)
+                if not any(f[0] == n for n, _ in genv):
+                    genv.append((f[0], "p0(%s)" % f[2].rsplit("=", 1)[0] if False else "p0(%s)" % global_ty(f[2])))
+        funcs = [core3gen.gen_func(rng, sig=sg, genv=genv) for sg in sigs]
         nd, dd = metagen.gen_sec(rng, max_defs=4) if rng.random() < 0.7 else ("-", "-")
         args = [ts, gs, nd, dd, str(len(funcs))] + [x for f in funcs for x in f]
         return " ".join(args)
@@ -45,12 +73,15 @@ def mutants(rng, text):
         out.append(("two-functions-one-name", with_line(b, lines[b].replace(fname(b) + b"(", fname(a) + b"(", 1))))
     if fn:
         f = rng.choice(fn)
-        # a named type nothing defines in a function header
-        out.append(("undefined-type-in-function", with_line(f, lines[f].replace(b"(", b"(%undefined.t* %undefined.p, ", 1) if b"()" not in lines[f] else lines[f].replace(b"()", b"(%undefined.t* %undefined.p)", 1))))
+        # a named type nothing defines in a function header (a new first parameter)
+        def add_param(line, fn_name, ptxt):
+            k = line.index(fn_name + b"(") + len(fn_name) + 1
+            return line[:k] + ptxt + (b"" if line[k:k + 1] == b")" else b", ") + line[k:]
+        out.append(("undefined-type-in-function", with_line(f, add_param(lines[f], fname(f), b"%undefined.t* %undefined.p"))))
         if td:
             t = rng.choice(td)
             tname = lines[t][:lines[t].index(b" = ")]
-            out.append(("defined-type-in-function", with_line(f, lines[f].replace(b"(", b"(" + tname + b"* %defined.p, ", 1) if b"()" not in lines[f] else lines[f].replace(b"()", b"(" + tname + b"* %defined.p)", 1))))
+            out.append(("defined-type-in-function", with_line(f, add_param(lines[f], fname(f), tname + b"* %defined.p"))))
     if td:
         t = rng.choice(td)
         out.append(("typedef-deleted", b"\n".join(lines[:t] + lines[t + 1:])))
@@ -73,6 +104,32 @@ def mutants(rng, text):
         f = rng.choice(fn)
         close = next(k for k in range(f, len(lines)) if lines[k] == b"}")
         out.append(("closing-brace-deleted", b"\n".join(lines[:close] + lines[close + 1:])))
+    # `@name` operands of function bodies: the global environment of M-Core-3 inside M-Whole
+    body = [k for k, l in enumerate(lines) if l.startswith(b"\t")]
+    guses = [(k, m) for k in body for m in re.finditer(rb'@(?:"[^"]*"|[-a-zA-Z$._0-9]+)', lines[k])]
+    if guses:
+        k, m = rng.choice(guses)
+        out.append(("global-use-undefined", with_line(k, lines[k][:m.start()] + b"@undefined.g" + lines[k][m.end():])))
+        k, m = rng.choice(guses)
+        # the definition of a used global variable / function deleted
+        gd = [j for j in gl if lines[j].startswith(m.group(0) + b" = ")]
+        fd = [j for j in fn if fname(j) == m.group(0)]
+        if gd:
+            out.append(("used-global-deleted", b"\n".join(lines[:gd[0]] + lines[gd[0] + 1:])))
+        if fd:
+            close = next(j for j in range(fd[0], len(lines)) if lines[j] == b"}")
+            out.append(("used-function-deleted", b"\n".join(lines[:fd[0]] + lines[close + 1:])))
+        others = [lines[j][:lines[j].index(b" = ")] for j in gl] + [fname(j) for j in fn]
+        others = [o for o in others if o != m.group(0)]
+        if others:
+            out.append(("global-use-renamed", with_line(k, lines[k][:m.start()] + rng.choice(others) + lines[k][m.end():])))
+        typed = [(k, m) for k in body for m in re.finditer(rb"\b(i32|i8|i64)\* @", lines[k])]
+        if typed:
+            k, m = rng.choice(typed)
+            out.append(("global-use-retyped", with_line(k, lines[k][:m.start()] + b"i16* @" + lines[k][m.end():])))
+        # a local of the same spelling is not the global
+        k, m = rng.choice(guses)
+        out.append(("global-use-as-local", with_line(k, lines[k][:m.start()] + b"%" + m.group(0)[1:] + lines[k][m.end():])))
     return out
 
 
